@@ -5,6 +5,10 @@ registered check): every check must stay silent on it (python -m sa.check Cxx --
   rename          every local variable of every function without nested scopes gets a new name
   partial-rename  only the locals bound by for-loops are renamed, each loop separately
   shift           two comment lines are inserted at the top of every file (all line numbers move)
+  hoist           every `if <test>:` becomes `_cN = <test>; if _cN:` and every `return <call>` becomes
+                  `_rN = <call>; return _rN` (conditions and results bound to locals first)
+  reorder-methods the methods of every class are listed in reverse order (classes with property
+                  setters / overloads are left alone)
 """
 import ast, pathlib, shutil, sys
 kind, out = sys.argv[1], pathlib.Path(sys.argv[2])
@@ -28,6 +32,42 @@ for p in (out / 'cirkit').rglob('*.py'):
     if kind == 'shift':
         p.write_text('# shifted\n# shifted again\n' + src); continue
     t = ast.parse(src)
+    if kind == 'hoist':
+        cnt = [0]
+        def hoist_block(stmts):
+            out = []
+            for st in stmts:
+                for f_ in ('body', 'orelse', 'finalbody'):
+                    if hasattr(st, f_) and isinstance(getattr(st, f_), list) and not isinstance(st, (ast.FunctionDef, ast.ClassDef, ast.AsyncFunctionDef)):
+                        setattr(st, f_, hoist_block(getattr(st, f_)))
+                if isinstance(st, ast.Try):
+                    for h in st.handlers: h.body = hoist_block(h.body)
+                if isinstance(st, ast.If) and not isinstance(st.test, ast.Name):
+                    cnt[0] += 1; nm = f'_c{cnt[0]}'
+                    out.append(ast.Assign(targets=[ast.Name(id=nm, ctx=ast.Store())], value=st.test, lineno=st.lineno))
+                    st.test = ast.Name(id=nm, ctx=ast.Load())
+                if isinstance(st, ast.Return) and isinstance(st.value, ast.Call):
+                    cnt[0] += 1; nm = f'_r{cnt[0]}'
+                    out.append(ast.Assign(targets=[ast.Name(id=nm, ctx=ast.Store())], value=st.value, lineno=st.lineno))
+                    st.value = ast.Name(id=nm, ctx=ast.Load())
+                out.append(st)
+            return out
+        for fn in [n for n in ast.walk(t) if isinstance(n, ast.FunctionDef)]:
+            if has_nested(fn): continue
+            if any(isinstance(n, (ast.Yield, ast.YieldFrom)) for n in ast.walk(fn)): continue
+            fn.body = hoist_block(fn.body); n_fn += 1
+        ast.fix_missing_locations(t)
+        p.write_text(ast.unparse(t)); continue
+    if kind == 'reorder-methods':
+        for c in [n for n in ast.walk(t) if isinstance(n, ast.ClassDef)]:
+            fns = [x for x in c.body if isinstance(x, ast.FunctionDef)]
+            if any(isinstance(d, ast.Attribute) and d.attr in ('setter', 'deleter') or (isinstance(d, ast.Name) and d.id == 'overload') for f in fns for d in f.decorator_list):
+                continue
+            if len(fns) < 2: continue
+            it = iter(reversed(fns))
+            c.body = [next(it) if isinstance(x, ast.FunctionDef) else x for x in c.body]
+            n_fn += 1
+        p.write_text(ast.unparse(t)); continue
     for fn in [n for n in ast.walk(t) if isinstance(n, ast.FunctionDef)]:
         if has_nested(fn): continue
         params = {a.arg for a in fn.args.posonlyargs + fn.args.args + fn.args.kwonlyargs}
